@@ -2,6 +2,9 @@ import SphericalVerif.Props.GenEuler
 import SphericalVerif.Props.GenCPow
 import SphericalVerif.Props.GenFill
 import SphericalVerif.Props.DAll
+import SphericalVerif.Props.GenHorner
+import SphericalVerif.Props.GenRot
+import SphericalVerif.Props.HomAll
 /-! GenChain — `Wigner.D` for one rotor, **every kernel as the source states it**, wired as the method wires them:
 
     ```
@@ -23,7 +26,7 @@ import SphericalVerif.Props.DAll
     only the arrays it is handed for writing — is the frame property the footprint monitor of C10 checks on the real code on
     every run; it is visible in the generated text (every `fwr` names an output array id) but not restated as a theorem. -/
 namespace GenChain
-open Gen Model Spec GenH GenFill GenCPow GenEuler
+open Gen Model Spec GenH GenFill GenCPow GenEuler GenHorner GenRot
 
 section
 variable {α : Type} [Scalar α] {φ : Type} [FMem φ α] [LawfulFMem φ α]
@@ -95,5 +98,165 @@ theorem gen_D_chain_doc {φ : Type} [FMem φ ℝ] [LawfulFMem φ ℝ] (L : Nat) 
       = DDef.docD ell (DDef.Ra (R 0) (R 3)) (DDef.Rb (R 1) (R 2)) mp m := by
   rw [gen_D_chain L ell_min zI aI gI DI a b d g h ht imsqrt R F (fun _ => 0) h0 ell mp m h1 hl (by omega) (by omega) (by omega) (by omega)]
   exact DAll.D_all L _ (R 0) (R 1) (R 2) (R 3) hR imsqrt hs ell hl mp m hmp hm
+
+/-! ### `Wigner.sYlm`, `Wigner.evaluate(horner=True)`, `Wigner.rotate(horner=True)`: the same for the other three methods -/
+
+section
+variable {α : Type} [Scalar α] {φ : Type} [FMem φ α] [LawfulFMem φ α]
+
+/-- `Wigner.sYlm(s, R)` for one rotor: `to_euler_phases`, `self.H(z[1], …)`, `_complex_powers(z[0:1], M, zₐpowers)`,
+    `_fill_sYlm(…, zₐpowers[0], zᵧpower)`; `zgpow` is the library power `z[2]**abs(s)` -/
+def wignerY (L P : Nat) (ell_min sw : Int) (zI aI YI : Nat) (a b d g h : Int → α) (imsqrt : Cx α → α) (zgpow : Cx α) (R : Int → α) (st : φ) : φ :=
+  let st1 := Gen.u_to_euler_phases (α := α) R zI st
+  let z0 := frdC (α := α) st1 zI 0
+  let z1 := frdC (α := α) st1 zI 1
+  let stH := Gen.Wigner_H (α := α) g h (L : Int) (P : Int) a b d z1 idW idV idX st1
+  let st2 := Gen.u_complex_powers (α := α) (fun _ => z0) (L : Int) aI 1 ((L : Int) + 1) imsqrt 4 stH
+  Gen.u_fill_sYlm (α := α) ell_min (L : Int) (P : Int) sw YI (fun i => frd (α := α) stH idW i) (fun i => frdC (α := α) st2 aI i) zgpow st2
+
+theorem gen_Y_chain (L P : Nat) (ell_min sw : Int) (zI aI YI : Nat) (a b d g h : Int → α) (ht : TabOK L a b d g h)
+    (imsqrt : Cx α → α) (zgpow : Cx α) (R : Int → α) (F : φ) (J : Loc → α) (h0 : 0 ≤ ell_min) (hs : sw.natAbs ≤ P)
+    (hsL : max ((sw.natAbs : Nat) : Int) ell_min ≤ (L : Int) + 1)
+    (ell : Nat) (m : Int) (h1 : ell_min ≤ ell) (hl : ell ≤ L) (hm1 : -(ell : Int) ≤ m) (hm2 : m ≤ ell) :
+    frdC (α := α) (wignerY L P ell_min sw zI aI YI a b d g h imsqrt zgpow R F) YI (Yindex (ell : Int) m ell_min)
+      = Model.objY (α := α) L P (⟨Gen.u_to_euler_phases (α := α) R zI F, J⟩ : Hyb L P φ α) (R 0) (R 1) (R 2) (R 3) imsqrt zgpow sw ell m := by
+  unfold wignerY Model.objY
+  obtain ⟨e0, e1, _⟩ : frdC (α := α) (Gen.u_to_euler_phases (α := α) R zI F) zI 0 = (Model.eulerPhases (R 0) (R 1) (R 2) (R 3)).1
+      ∧ frdC (α := α) (Gen.u_to_euler_phases (α := α) R zI F) zI 1 = (Model.eulerPhases (R 0) (R 1) (R 2) (R 3)).2.1
+      ∧ frdC (α := α) (Gen.u_to_euler_phases (α := α) R zI F) zI 2 = (Model.eulerPhases (R 0) (R 1) (R 2) (R 3)).2.2 :=
+    gen_euler_phases R zI F
+  simp only []
+  rw [e0, e1]
+  generalize Model.eulerPhases (R 0) (R 1) (R 2) (R 3) = E
+  obtain ⟨z0, z1, z2⟩ := E
+  simp only []
+  -- the fill kernel reads `zₐpowers` as a function of the index; it agrees with the model's array on the indices used
+  have ha : ∀ k : Nat, k ≤ L → frdC (α := α) (Gen.u_complex_powers (α := α) (fun _ => z0) (L : Int) aI 1 ((L : Int) + 1) imsqrt 4
+        (Gen.Wigner_H (α := α) g h (L : Int) (P : Int) a b d z1 idW idV idX (Gen.u_to_euler_phases (α := α) R zI F))) aI (k : Int)
+        = cget (cpowers z0 L imsqrt) k := fun k hk => gen_cpow_cell z0 L aI imsqrt _ k hk
+  unfold Model.sYlmEntry
+  by_cases hlow : (ell : Int) < (sw.natAbs : Int)
+  · rw [if_pos hlow, fill_sYlm_low ell_min L P sw YI _ _ zgpow _ h0 ell m h1 (by omega) hsL hm1 hm2]
+    rfl
+  · rw [if_neg hlow, fill_sYlm_entry ell_min L P sw YI _ _ zgpow _ h0 ell m (by omega) (by omega) hm1 hm2]
+    simp only []
+    have hz1 : (⟨z1.re, z1.im⟩ : Cx α) = z1 := rfl
+    rw [hat_gen L P z1.re z1.im a b d g h ht (Gen.u_to_euler_phases (α := α) R zI F) J ell m (-sw) hl hm1 hm2 (by omega) (by omega) (by omega)]
+    by_cases hm : m < 0
+    · have e : (-m) = (((-m).toNat : Nat) : Int) := by omega
+      simp only [hm, if_true]
+      rw [e, ha _ (by omega)]
+      simp only [Int.toNat_natCast]
+      try rfl
+    · have e : m = ((m.toNat : Nat) : Int) := by omega
+      simp only [hm, if_false]
+      rw [e, ha _ (by omega)]
+      simp only [Int.toNat_natCast]
+      try rfl
+
+/-- `Wigner.evaluate(modes, R, horner=True)` for one row of weights and one rotor -/
+def wignerEval (L P : Nat) (sw : Int) (ellMax : Nat) (zI fvI : Nat) (a b d g h : Int → α) (cpowi : Cx α → Int → Cx α) (ncols : Int)
+    (farr : Array (Cx α)) (R : Int → α) (st : φ) : φ :=
+  let st1 := Gen.u_to_euler_phases (α := α) R zI st
+  let z0 := frdC (α := α) st1 zI 0
+  let z1 := frdC (α := α) st1 zI 1
+  let z2 := frdC (α := α) st1 zI 2
+  let stH := Gen.Wigner_H (α := α) g h (L : Int) (P : Int) a b d z1 idW idV idX st1
+  Gen.u_evaluate_Horner (α := α) (fun i => Model.cget farr i.toNat) fvI 0 (L : Int) (P : Int) 0 (ellMax : Int) sw
+    (fun i => frd (α := α) stH idW i) z0 z2 1 ncols cpowi stH
+
+theorem gen_evaluate_chain (L P : Nat) (sw : Int) (ellMax : Nat) (zI fvI : Nat) (a b d g h : Int → α) (ht : TabOK L a b d g h)
+    (cpowi : Cx α → Int → Cx α) (ncols : Int) (farr : Array (Cx α)) (R : Int → α) (F : φ) (J : Loc → α)
+    (hsP : sw.natAbs ≤ P) (hM : ellMax ≤ L) :
+    ∃ prev : Cx α, frdC (α := α) (wignerEval L P sw ellMax zI fvI a b d g h cpowi ncols farr R F) fvI 0
+      = Model.objEvalH (α := α) L P (⟨Gen.u_to_euler_phases (α := α) R zI F, J⟩ : Hyb L P φ α) (R 0) (R 1) (R 2) (R 3)
+          (cpowi (Cx.conj (Model.eulerPhases (R 0) (R 1) (R 2) (R 3)).2.2) sw) farr sw ellMax prev := by
+  unfold wignerEval Model.objEvalH
+  obtain ⟨e0, e1, e2⟩ : frdC (α := α) (Gen.u_to_euler_phases (α := α) R zI F) zI 0 = (Model.eulerPhases (R 0) (R 1) (R 2) (R 3)).1
+      ∧ frdC (α := α) (Gen.u_to_euler_phases (α := α) R zI F) zI 1 = (Model.eulerPhases (R 0) (R 1) (R 2) (R 3)).2.1
+      ∧ frdC (α := α) (Gen.u_to_euler_phases (α := α) R zI F) zI 2 = (Model.eulerPhases (R 0) (R 1) (R 2) (R 3)).2.2 :=
+    gen_euler_phases R zI F
+  simp only []
+  rw [e0, e1, e2]
+  generalize Model.eulerPhases (R 0) (R 1) (R 2) (R 3) = E
+  obtain ⟨z0, z1, z2⟩ := E
+  simp only []
+  exact ⟨_, gen_evaluate_row L P fvI z1.re z1.im a b d g h ht farr z0 z2 sw ellMax ncols cpowi _ J hsP hM⟩
+
+/-- `Wigner.rotate(modes, R, horner=True)` for one row of weights -/
+def wignerRot (L : Nat) (sw : Int) (ellMax : Nat) (zI flnI nT pT : Nat) (a b d g h : Int → α) (cpowi : Cx α → Int → Cx α) (ncn nc : Int)
+    (farr : Array (Cx α)) (R : Int → α) (st : φ) : φ :=
+  let st1 := Gen.u_to_euler_phases (α := α) R zI st
+  let z0 := frdC (α := α) st1 zI 0
+  let z1 := frdC (α := α) st1 zI 1
+  let z2 := frdC (α := α) st1 zI 2
+  let stH := Gen.Wigner_H (α := α) g h (L : Int) (L : Int) a b d z1 idW idV idX st1
+  Gen.u_rotate_Horner (α := α) (fun i => Model.cget farr i.toNat) flnI 0 (L : Int) (L : Int) 0 (ellMax : Int) sw
+    (fun i => frd (α := α) stH idW i) z0 z2 nT pT 1 1 ncn nc cpowi stH
+
+theorem gen_rotate_chain (L : Nat) (sw : Int) (ellMax : Nat) (zI flnI nT pT : Nat) (a b d g h : Int → α) (ht : TabOK L a b d g h)
+    (cpowi : Cx α → Int → Cx α) (ncn nc : Int) (farr : Array (Cx α)) (R : Int → α) (F : φ) (J : Loc → α)
+    (h1 : nT ≠ pT) (h2 : flnI ≠ nT) (h3 : flnI ≠ pT) (hM : ellMax ≤ L)
+    (n : Nat) (m : Int) (hsn : sw.natAbs ≤ n) (hn : n ≤ ellMax) (hm1 : -(n : Int) ≤ m) (hm2 : m ≤ n) :
+    frdC (α := α) (wignerRot L sw ellMax zI flnI nT pT a b d g h cpowi ncn nc farr R F) flnI ((n : Int) * ((n : Int) + 1) + m)
+      = Model.objRotH (α := α) L (⟨Gen.u_to_euler_phases (α := α) R zI F, J⟩ : Hyb L L φ α) (R 0) (R 1) (R 2) (R 3)
+          (cpowi (Model.eulerPhases (R 0) (R 1) (R 2) (R 3)).2.2) farr sw n m := by
+  unfold wignerRot Model.objRotH
+  obtain ⟨e0, e1, e2⟩ : frdC (α := α) (Gen.u_to_euler_phases (α := α) R zI F) zI 0 = (Model.eulerPhases (R 0) (R 1) (R 2) (R 3)).1
+      ∧ frdC (α := α) (Gen.u_to_euler_phases (α := α) R zI F) zI 1 = (Model.eulerPhases (R 0) (R 1) (R 2) (R 3)).2.1
+      ∧ frdC (α := α) (Gen.u_to_euler_phases (α := α) R zI F) zI 2 = (Model.eulerPhases (R 0) (R 1) (R 2) (R 3)).2.2 :=
+    gen_euler_phases R zI F
+  simp only []
+  rw [e0, e1, e2]
+  generalize Model.eulerPhases (R 0) (R 1) (R 2) (R 3) = E
+  obtain ⟨z0, z1, z2⟩ := E
+  simp only []
+  have hlow : ¬ (n < sw.natAbs) := by omega
+  rw [if_neg hlow]
+  exact gen_rotate_row L flnI nT pT z1.re z1.im a b d g h ht farr z0 z2 sw ellMax ncn nc cpowi _ J h1 h2 h3 hM n m hsn hn hm1 hm2
+end
+
+/-- **`Wigner.sYlm` from the source of its kernels = (−1)^s √((2ℓ+1)/4π) · 𝔇^ℓ_{m,−s}(documented)** (exact reals, every unit quaternion,
+    every `|s| ≤ mp_max`, every `ell_min ≤ ℓ ≤ ell_max`, `ℓ ≥ |s|`) -/
+theorem gen_Y_chain_doc {φ : Type} [FMem φ ℝ] [LawfulFMem φ ℝ] (L P : Nat) (ell_min sw : Int) (zI aI YI : Nat)
+    (a b d g h : Int → ℝ) (ht : TabOK L a b d g h) (imsqrt : Cx ℝ → ℝ)
+    (hs : ∀ w : Cx ℝ, w.re ^ 2 + w.im ^ 2 = 1 → 2 * (imsqrt w) ^ 2 = 1 - w.re) (zgpow : Cx ℝ)
+    (R : Int → ℝ) (hR : R 0 ^ 2 + R 1 ^ 2 + R 2 ^ 2 + R 3 ^ 2 = 1)
+    (hY : CPow.toC zgpow = CPow.toC (Model.eulerPhases (R 0) (R 1) (R 2) (R 3)).2.2 ^ sw.natAbs) (F : φ) (h0 : 0 ≤ ell_min)
+    (hsP : sw.natAbs ≤ P) (ell : Nat) (m : Int) (h1 : ell_min ≤ ell) (hl : ell ≤ L) (hsl : sw.natAbs ≤ ell) (hm : m.natAbs ≤ ell) :
+    CPow.toC (frdC (α := ℝ) (wignerY L P ell_min sw zI aI YI a b d g h imsqrt zgpow R F) YI (Yindex (ell : Int) m ell_min))
+      = (((-1) ^ sw.natAbs * Real.sqrt ((2 * (ell : ℝ) + 1) / (4 * Real.pi)) : ℝ) : ℂ)
+          * DDef.docD ell (DDef.Ra (R 0) (R 3)) (DDef.Rb (R 1) (R 2)) m (-sw) := by
+  rw [gen_Y_chain L P ell_min sw zI aI YI a b d g h ht imsqrt zgpow R F (fun _ => 0) h0 hsP (by omega) ell m h1 hl (by omega) (by omega)]
+  exact DAll.sYlm_all L P _ (R 0) (R 1) (R 2) (R 3) hR imsqrt hs zgpow sw hY ell hl hsl hsP m hm
+
+/-- **`Wigner.evaluate` from the source of its kernels = Σ_{ℓ,m} f_{ℓm} ₛY_{ℓm}(Q) with the documented harmonics** (exact reals, every
+    unit quaternion, every spin `|s| ≤ mp_max`, every `ell_max ≤` the calculator's) -/
+theorem gen_evaluate_chain_doc {φ : Type} [FMem φ ℝ] [LawfulFMem φ ℝ] (L P : Nat) (sw : Int) (ellMax : Nat) (zI fvI : Nat)
+    (a b d g h : Int → ℝ) (ht : TabOK L a b d g h) (cpowi : Cx ℝ → Int → Cx ℝ) (ncols : Int) (farr : Array (Cx ℝ))
+    (Q : Model.Quat ℝ) (hQ : Q.w ^ 2 + Q.x ^ 2 + Q.y ^ 2 + Q.z ^ 2 = 1) (F : φ) (hsP : sw.natAbs ≤ P) (hM : ellMax ≤ L)
+    (hE : CPow.toC (cpowi (Cx.conj (Model.eulerPhases Q.w Q.x Q.y Q.z).2.2) sw)
+        = (starRingEnd ℂ) (CPow.toC (Model.eulerPhases Q.w Q.x Q.y Q.z).2.2) ^ sw) :
+    CPow.toC (frdC (α := ℝ) (wignerEval L P sw ellMax zI fvI a b d g h cpowi ncols farr
+        (fun i => if i = 0 then Q.w else if i = 1 then Q.x else if i = 2 then Q.y else Q.z) F) fvI 0)
+      = HomAll.evalW sw Q (HomAll.wts farr) ellMax := by
+  obtain ⟨prev, hp⟩ := gen_evaluate_chain L P sw ellMax zI fvI a b d g h ht cpowi ncols farr
+    (fun i => if i = 0 then Q.w else if i = 1 then Q.x else if i = 2 then Q.y else Q.z) F (fun _ => 0) hsP hM
+  rw [hp]
+  exact HomAll.evaluate_is_evalW L P _ Q hQ _ farr sw ellMax hM hsP prev hE
+
+/-- **`Wigner.rotate` from the source of its kernels = f · 𝔇(documented)**: output weight (ℓ, m) is Σ_n f_{ℓ n} 𝔇^ℓ_{n m}(R) -/
+theorem gen_rotate_chain_doc {φ : Type} [FMem φ ℝ] [LawfulFMem φ ℝ] (L : Nat) (sw : Int) (ellMax : Nat) (zI flnI nT pT : Nat)
+    (a b d g h : Int → ℝ) (ht : TabOK L a b d g h) (cpowi : Cx ℝ → Int → Cx ℝ) (ncn nc : Int) (farr : Array (Cx ℝ))
+    (R : Model.Quat ℝ) (hR : R.w ^ 2 + R.x ^ 2 + R.y ^ 2 + R.z ^ 2 = 1) (F : φ)
+    (h1 : nT ≠ pT) (h2 : flnI ≠ nT) (h3 : flnI ≠ pT) (hM : ellMax ≤ L)
+    (n : Nat) (m : Int) (hsn : sw.natAbs ≤ n) (hn : n ≤ ellMax) (hm : m.natAbs ≤ n)
+    (hpow : CPow.toC (cpowi (Model.eulerPhases R.w R.x R.y R.z).2.2 m) = CPow.toC (Model.eulerPhases R.w R.x R.y R.z).2.2 ^ m) :
+    CPow.toC (frdC (α := ℝ) (wignerRot L sw ellMax zI flnI nT pT a b d g h cpowi ncn nc farr
+        (fun i => if i = 0 then R.w else if i = 1 then R.x else if i = 2 then R.y else R.z) F) flnI ((n : Int) * ((n : Int) + 1) + m))
+      = HomAll.rot R (HomAll.wts farr) n m := by
+  rw [gen_rotate_chain L sw ellMax zI flnI nT pT a b d g h ht cpowi ncn nc farr
+    (fun i => if i = 0 then R.w else if i = 1 then R.x else if i = 2 then R.y else R.z) F (fun _ => 0) h1 h2 h3 hM n m hsn hn (by omega) (by omega)]
+  exact HomAll.rotate_is_rot L _ R hR _ farr sw n (by omega) hsn m hm hpow
 
 end GenChain
